@@ -257,10 +257,11 @@ fn check(args: &[String], ops: &[Op]) {
     let results: Mutex<Vec<Value>> = Mutex::new(vec![]);
     let violations: Mutex<Vec<String>> = Mutex::new(vec![]);
     let inconclusive: Mutex<Vec<String>> = Mutex::new(vec![]);
+    let retried = AtomicUsize::new(0);
     let t0 = std::time::Instant::now();
     std::thread::scope(|sc| {
         for tid in 0..jobs {
-            let (next, results, violations, inconclusive, sel, scratch, exe) = (&next, &results, &violations, &inconclusive, &sel, &scratch, &exe);
+            let (next, results, violations, inconclusive, sel, scratch, exe, retried) = (&next, &results, &violations, &inconclusive, &sel, &scratch, &exe, &retried);
             sc.spawn(move || loop {
                 let j = next.fetch_add(1, Ordering::SeqCst);
                 if j >= sel.len() {
@@ -287,46 +288,43 @@ fn check(args: &[String], ops: &[Op]) {
                 }
                 let input = format!("{scratch}/in-{tid}.bin");
                 let log = format!("{scratch}/log-{tid}");
-                let mut traces: Vec<Trace> = vec![];
-                let mut bad = false;
-                for s in &tuples {
-                    write_input(&input, &publics, s);
-                    if !run_lackey(exe, idx, &input, &log) {
-                        inconclusive.lock().unwrap().push(format!("{}: worker failed under valgrind", op.name));
-                        bad = true;
-                        break;
+                // One attempt: trace every secret tuple, re-trace the first one (the reference trace must
+                // reproduce for identical inputs), compare. A disturbed attempt (worker or valgrind
+                // failure, unreadable trace, irreproducible reference, a divergence that does not show up
+                // again when the two runs are repeated) is retried; only an operation that stays
+                // disturbed in every attempt is reported as inconclusive.
+                enum Attempt {
+                    Equal(Vec<Trace>),
+                    Diverged(Vec<Trace>, String),
+                    Disturbed(String),
+                }
+                let attempt = || -> Attempt {
+                    let mut traces: Vec<Trace> = vec![];
+                    for s in &tuples {
+                        write_input(&input, &publics, s);
+                        if !run_lackey(exe, idx, &input, &log) {
+                            return Attempt::Disturbed("worker failed under valgrind".into());
+                        }
+                        match hash_trace(&log, skip, None) {
+                            Ok(tr) => traces.push(tr),
+                            Err(e) => return Attempt::Disturbed(format!("cannot read trace: {e}")),
+                        }
                     }
-                    match hash_trace(&log, skip, None) {
-                        Ok(tr) => traces.push(tr),
-                        Err(e) => {
-                            inconclusive.lock().unwrap().push(format!("{}: cannot read trace: {e}", op.name));
-                            bad = true;
+                    write_input(&input, &publics, &tuples[0]);
+                    let again = if run_lackey(exe, idx, &input, &log) { hash_trace(&log, skip, None).ok() } else { None };
+                    match again {
+                        Some(a) if a.h1 == traces[0].h1 && a.h2 == traces[0].h2 && a.lines == traces[0].lines => {}
+                        _ => return Attempt::Disturbed("machine-level trace not reproducible for identical inputs".into()),
+                    }
+                    let mut diverged: Option<usize> = None;
+                    for (k, tr) in traces.iter().enumerate().skip(1) {
+                        if tr.h1 != traces[0].h1 || tr.h2 != traces[0].h2 || tr.lines != traces[0].lines {
+                            diverged = Some(k);
                             break;
                         }
                     }
-                }
-                if bad {
-                    continue;
-                }
-                // self-reproducibility of the reference trace
-                write_input(&input, &publics, &tuples[0]);
-                let again = if run_lackey(exe, idx, &input, &log) { hash_trace(&log, skip, None).ok() } else { None };
-                match again {
-                    Some(a) if a.h1 == traces[0].h1 && a.h2 == traces[0].h2 && a.lines == traces[0].lines => {}
-                    _ => {
-                        inconclusive.lock().unwrap().push(format!("{}: machine-level trace not reproducible for identical inputs", op.name));
-                        continue;
-                    }
-                }
-                let mut diverged: Option<usize> = None;
-                for (k, tr) in traces.iter().enumerate().skip(1) {
-                    if tr.h1 != traces[0].h1 || tr.h2 != traces[0].h2 || tr.lines != traces[0].lines {
-                        diverged = Some(k);
-                        break;
-                    }
-                }
-                if let Some(k) = diverged {
-                    // locate the first differing event
+                    let Some(k) = diverged else { return Attempt::Equal(traces) };
+                    // locate the first differing event (both runs repeated, full event lists kept)
                     let (mut l0, mut l1) = (vec![], vec![]);
                     write_input(&input, &publics, &tuples[0]);
                     run_lackey(exe, idx, &input, &log);
@@ -338,6 +336,9 @@ fn check(args: &[String], ops: &[Op]) {
                     while i < l0.len() && i < l1.len() && l0[i] == l1[i] {
                         i += 1;
                     }
+                    if i == l0.len() && i == l1.len() {
+                        return Attempt::Disturbed("a divergence between two secret tuples did not reproduce when both runs were repeated".into());
+                    }
                     let ctx0: Vec<&String> = l0.iter().skip(i.saturating_sub(3)).take(6).collect();
                     let ctx1: Vec<&String> = l1.iter().skip(i.saturating_sub(3)).take(6).collect();
                     let replay = json!({
@@ -348,8 +349,28 @@ fn check(args: &[String], ops: &[Op]) {
                         "events": [traces[0].lines, traces[k].lines], "first_divergence_at_event": i,
                         "context1": ctx0, "context2": ctx1,
                     });
-                    violations.lock().unwrap().push(format!("{}\u{1}{}", op.name, replay));
+                    Attempt::Diverged(traces, replay.to_string())
+                };
+                let mut outcome = attempt();
+                let mut tries = 1;
+                while matches!(outcome, Attempt::Disturbed(_)) && tries < 4 {
+                    std::thread::sleep(std::time::Duration::from_millis(500 * tries));
+                    retried.fetch_add(1, Ordering::SeqCst);
+                    outcome = attempt();
+                    tries += 1;
                 }
+                let (traces, diverged) = match outcome {
+                    Attempt::Equal(t) => (t, false),
+                    Attempt::Diverged(t, replay) => {
+                        violations.lock().unwrap().push(format!("{}\u{1}{}", op.name, replay));
+                        (t, true)
+                    }
+                    Attempt::Disturbed(why) => {
+                        inconclusive.lock().unwrap().push(format!("{}: {why} (in {tries} attempts)", op.name));
+                        continue;
+                    }
+                };
+                let diverged = if diverged { Some(1usize) } else { None };
                 results.lock().unwrap().push(json!({"operation": op.name, "secret_tuples": tuples.len(), "events_per_run": traces[0].lines, "instructions_per_run": traces[0].instrs, "equal": diverged.is_none(),
                     "sample": {"publics": publics.iter().map(|v| hex(v)).collect::<Vec<_>>(), "secret1": tuples[0].iter().map(|v| hex(v)).collect::<Vec<_>>(), "secret2": tuples[1 % tuples.len()].iter().map(|v| hex(v)).collect::<Vec<_>>()}}));
             });
@@ -376,10 +397,10 @@ fn check(args: &[String], ops: &[Op]) {
     }
     let runs: u64 = results.iter().map(|r| r["secret_tuples"].as_u64().unwrap_or(0) + 1).sum();
     let events: u64 = results.iter().map(|r| r["events_per_run"].as_u64().unwrap_or(0) * (r["secret_tuples"].as_u64().unwrap_or(0))).sum();
-    println!("C01 [machine-level] operations={} runs={} events_compared={} violations={} inconclusive={} wall={:.1}s", results.len(), runs, events, nviol, inconclusive.len(), t0.elapsed().as_secs_f64());
+    println!("C01 [machine-level] operations={} runs={} events_compared={} violations={} inconclusive={} retried_attempts={} wall={:.1}s", results.len(), runs, events, nviol, inconclusive.len(), retried.load(Ordering::SeqCst), t0.elapsed().as_secs_f64());
     if let Some(o) = out {
         let ev = json!({"layer": "machine-level traces (valgrind --tool=lackey --trace-mem=yes) of the uninstrumented optimized build: address of every executed instruction and of every load/store, compared between secret tuples; dynamic-loader events excluded",
-            "operations": results.len(), "valgrind_runs": runs, "events_compared": events, "violations": nviol, "inconclusive": inconclusive, "per_operation": results, "wall_s": t0.elapsed().as_secs_f64()});
+            "operations": results.len(), "valgrind_runs": runs, "events_compared": events, "violations": nviol, "inconclusive": inconclusive, "retried_attempts": retried.load(Ordering::SeqCst), "per_operation": results, "wall_s": t0.elapsed().as_secs_f64()});
         std::fs::write(o, vmodel::serde_json::to_string_pretty(&ev).unwrap()).unwrap();
     }
     std::process::exit(if nviol > 0 { 1 } else if !inconclusive.is_empty() { 2 } else { 0 });
